@@ -47,6 +47,7 @@ type verifNatsBroker struct {
 	published   []verifPub
 	status      nats.Status
 	failPublish bool
+	stallFlush  bool // PING is never answered
 	onPublish   func(p verifPub)
 }
 
@@ -193,6 +194,12 @@ func verifNatsSubIsValid(h *nats.Subscription) bool {
 }
 
 func verifNatsFlush(c *nats.Conn) error {
+	if verifBroker.stallFlush {
+		// the server accepts writes but stops answering PING: Flush() gives up after
+		// nats.go's own default of 10 s, whatever the caller's deadline is
+		verifRealSleep(10 * time.Second)
+		return nats.ErrTimeout
+	}
 	for _, s := range verifBroker.subs {
 		if s.draining || s.closed {
 			s.intakeOff = true
@@ -200,7 +207,13 @@ func verifNatsFlush(c *nats.Conn) error {
 	}
 	return nil
 }
-func verifNatsFlushTimeout(c *nats.Conn, d time.Duration) error { return verifNatsFlush(c) }
+func verifNatsFlushTimeout(c *nats.Conn, d time.Duration) error {
+	if verifBroker.stallFlush {
+		verifRealSleep(d)
+		return nats.ErrTimeout
+	}
+	return verifNatsFlush(c)
+}
 
 func verifNatsBarrier(c *nats.Conn, f func()) error {
 	type mark struct {
